@@ -913,6 +913,90 @@ func c18OverlapHists(alg string, l int, emit func(c18Hist)) {
 		{kind: 'U', peer: 2, fails: []int{1, 2}}, {kind: 'O'}, {kind: 'O'}}})
 }
 
+// c18GatedOverlap: a transmission of the bundle to peer A is in progress (A's Send has been entered and does
+// not answer yet); meanwhile peer B appears and the run started for it hands B its share, successfully; then the
+// transmission to A fails. Reported: the copies held before, the copies announced to A and to B (BinarySprayBlock
+// of the transmitted bytes; plain spray: 1 each), the bookkeeping afterwards.
+func c18GatedOverlap(dir, alg string, l int) (line string) {
+	head := fmt.Sprintf("gov %s %d", alg, l)
+	defer func() {
+		if r := recover(); r != nil {
+			line = head + " panic"
+		}
+	}()
+	w, err := c18NewWorld(dir, alg, l)
+	if err != nil {
+		return "# gov cannot open core"
+	}
+	defer w.c.Close()
+	net := &verifNet{}
+	a := net.newCLA("c18-1", c18PeerEid(1), false)
+	bb := net.newCLA("c18-2", c18PeerEid(2), true)
+	entered := make(chan struct{})
+	release := make(chan struct{})
+	var once sync.Once
+	a.gate = func(m *verifMockCLA, n int) {
+		first := false
+		once.Do(func() { first = true; close(entered) })
+		if first {
+			select {
+			case <-release:
+			case <-time.After(20 * time.Second):
+			}
+		}
+	}
+	b, err := w.bundle(c18Node, -1, -1)
+	if err != nil {
+		return head + " error build"
+	}
+	w.c.SendBundle(&b) // nobody connected: all copies stay here
+	before, _ := w.meta()
+	verifPeerUpNoRetry(w.c, a)
+	doneA := make(chan struct{})
+	go func() {
+		defer close(doneA)
+		defer func() { _ = recover() }()
+		w.c.checkPendingBundles() // run 1: chooses A, blocks inside A.Send
+	}()
+	select {
+	case <-entered:
+	case <-time.After(10 * time.Second):
+		close(release)
+		<-doneA
+		return head + " not-blocked"
+	}
+	doneB := make(chan struct{})
+	go func() {
+		defer close(doneB)
+		defer func() { _ = recover() }()
+		verifPeerUp(w.c, bb) // run 2: B appears, the handler's run serves it
+	}()
+	select {
+	case <-doneB:
+	case <-time.After(15 * time.Second):
+		close(release)
+		<-doneA
+		return head + " second-run-hangs"
+	}
+	close(release) // now the transmission to A fails
+	<-doneA
+	announced := map[string]string{}
+	oks := map[string]bool{}
+	for _, sn := range net.drain(true) {
+		blk := "-"
+		if pb, err := bpv7.ParseBundle(strings.NewReader(string(sn.Bytes))); err == nil {
+			if cb, err := pb.ExtensionBlock(bpv7.ExtBlockTypeBinarySprayBlock); err == nil {
+				blk = strconv.FormatUint(cb.Value.(*bpv7.BinarySprayBlock).RemainingCopies(), 10)
+			}
+		}
+		announced[sn.Peer] = blk
+		oks[sn.Peer] = sn.Ok
+	}
+	after, sent := w.meta()
+	return fmt.Sprintf("%s before=%s toA=%s okA=%v toB=%s okB=%v after=%s sent=%s", head, before,
+		announced["c18-1"], oks["c18-1"], announced["c18-2"], oks["c18-2"], after, sent)
+}
+
 // ---- replay ------------------------------------------------------------------------------------
 
 func c18ParseInts(s string) []int {
@@ -1169,6 +1253,20 @@ func TestVerifC18(t *testing.T) {
 		notes = append(notes, w.notes...)
 	}
 
+	// a failure report that arrives after another run handed a share to another peer
+	if phase("overlap") {
+		var lines []string
+		for _, alg := range []string{"spray", "binary"} {
+			ls := []int{3, 4, 8}
+			if thorough {
+				ls = []int{2, 3, 4, 5, 7, 8, 16}
+			}
+			for _, l := range ls {
+				lines = append(lines, c18GatedOverlap(filepath.Join(base, fmt.Sprintf("gov-%s-%d", alg, l)), alg, l))
+			}
+		}
+		write(lines)
+	}
 	for _, alg := range []string{"spray", "binary"} {
 		for _, l := range []int{2, 3, 4, 7} {
 			if (!thorough && l == 7) || !phase("overlap") {
